@@ -79,8 +79,10 @@ DefaultOptions(v) ==
       [] OTHER -> {<<Unknown, Unknown>>}
 
 \* ---- the walk -------------------------------------------------------------------------------------------------------
-\* w: [env, tg, via, pk, dopts, nproj, visited, dup]; via: <<target, "src"|"extra", file>> reached through a non-literal argument
-W0 == [env |-> <<>>, tg |-> {}, via |-> {}, pk |-> {}, dopts |-> {}, nproj |-> 0, visited |-> {}, dup |-> FALSE]
+\* w: [env, tg, via, pk, dopts, nproj, visited, dup, bad]; via: <<target, "src"|"extra", file>> reached through a non-literal argument
+W0 == [env |-> <<>>, tg |-> {}, via |-> {}, pk |-> {}, dopts |-> {}, nproj |-> 0, visited |-> {}, dup |-> FALSE, bad |-> FALSE]
+\* an expression the reference evaluator rejects (reasons 1, 2): such a build file cannot be configured at all
+Rejected(v) == IsErr(v) /\ v.n # 3
 
 IsTargetCall(n) == n.k = "call" /\ n.v \in TargetFuncs /\ Len(n.c[1].c) >= 1
 
@@ -146,13 +148,20 @@ WalkStmt(node, w, dir, trees) ==
            LET v == PEval(node.c[1], w.env, dir)
                old == IF EnvHas(w.env, node.cs) THEN EnvGet(w.env, node.cs) ELSE Err
            IN [w EXCEPT !.env = SetVar(w.env, node.cs, IF IsErr(old) THEN old ELSE IF IsErr(v) THEN v ELSE Arith("+", old, v))]
-      [] k = "if" -> WalkArms(node, 1, w, dir, trees)
+      [] k = "if" ->
+           LET conds == { j \in 1..(Len(node.c) \div 2) : Rejected(PEval(node.c[2 * j - 1], w.env, dir)) } IN
+           WalkArms(node, 1, [w EXCEPT !.bad = @ \/ conds # {}], dir, trees)
+      [] k = "call" /\ ~IsTargetCall(node) /\ node.v \notin {"project", "subdir"} ->
+           \* any other function call (message(...), ...): its arguments must at least be evaluable
+           LET a == node.c[1]
+               vs == PEvalSeq(a.c, w.env, dir) \o [j \in 1..Len(a.d) |-> PEval(a.d[j].c[2], w.env, dir)]
+           IN [w EXCEPT !.bad = @ \/ \E j \in 1..Len(vs) : Rejected(vs[j])]
       [] OTHER -> w
 
 \* trees: sequence of [path, node] (node = parsed block of that build file); the root file is meson.build
 ProjectOf(trees) ==
     LET root == TreeAt(trees, BuildFileName)
         w == IF root = <<>> THEN W0 ELSE WalkLines(root[1].c, 1, W0, <<>>, trees)
-    IN [tg |-> w.tg, pk |-> w.pk, dopts |-> w.dopts, vars |-> EnvAsSet(w.env), via |-> w.via, nproj |-> w.nproj, dup |-> w.dup]
+    IN [tg |-> w.tg, pk |-> w.pk, dopts |-> w.dopts, vars |-> EnvAsSet(w.env), via |-> w.via, nproj |-> w.nproj, dup |-> w.dup, bad |-> w.bad]
 
 =============================================================================
